@@ -21,6 +21,11 @@ const gangConfig = `partitions:
     queues:
       - name: root
         submitacl: "*"
+        limits:
+          - limit: gpu is scarce for everybody, plenty of the rest
+            users:
+              - "*"
+            maxresources: {cpu: 200, mem: 200, gpu: %d}
         queues:
           - name: a
           - name: b
@@ -40,7 +45,7 @@ func gangHistory(c *Ctx, d *coreDrv) {
 			deny = append(deny, fmt.Sprintf("r%d|n%d", i, 1+c.pick(3)))
 		}
 	}
-	d.apply(map[string]interface{}{"op": "reset", "config": gangConfig, "deny": strings.Join(deny, " ")})
+	d.apply(map[string]interface{}{"op": "reset", "config": fmt.Sprintf(gangConfig, 1), "deny": strings.Join(deny, " ")})
 	if d.s == nil {
 		return
 	}
@@ -129,7 +134,23 @@ func gangHistory(c *Ctx, d *coreDrv) {
 		g := gapps[c.pick(len(gapps))]
 		// scenario snippets for the situations the properties name explicitly
 		if c.chance(0.12) {
-			switch c.pick(4) {
+			switch c.pick(5) {
+			case 3:
+				// a swap is waiting for the shim: the RM releases every real allocation of the application (it becomes
+				// Completing), the completing timer fires, and only then the shim confirms
+				for _, conf := range s.pendConf {
+					if conf["type"] == "PLACEHOLDER_REPLACED" && conf["app"] == g.id {
+						for k, a := range s.asks {
+							if a.app == g.id && !a.ph && s.bound[k] != "" {
+								emit(map[string]interface{}{"op": "release", "app": g.id, "key": k, "type": "STOPPED_BY_RM"})
+								delete(s.asks, k)
+								delete(s.bound, k)
+							}
+						}
+						emit(map[string]interface{}{"op": "state-timeout", "app": g.id})
+						break
+					}
+				}
 			case 0:
 				// node removal while a placeholder replacement is in flight: remove the placeholder's node
 				for _, conf := range s.pendConf {
@@ -210,8 +231,8 @@ func gangHistory(c *Ctx, d *coreDrv) {
 				}
 			case 1: // larger
 				r.Resources["cpu"] += 2
-			case 2: // extra type the placeholder does not have
-				r.Resources["gpu"] = 1
+			case 2: // extra type the placeholder does not have (the users' limit on it is 1)
+				r.Resources["gpu"] = resources.Quantity(1 + c.pick(2))
 			case 3: // incomparable
 				r.Resources["cpu"]++
 				if r.Resources["mem"] > 0 {
